@@ -57,6 +57,8 @@ type Scenario struct {
 	Queries    []Query       `json:"queries"`
 }
 
+var wireCtl *zv.Ctl
+
 var (
 	out   *bufio.Writer
 	omx   sync.Mutex
@@ -170,6 +172,7 @@ func rows(n *zv.Node, sql string) ([]zv.RawRow, interface{}, error) {
 
 func run(sc *Scenario, scratch string) {
 	emit(map[string]interface{}{"a": "Reset", "scn": sc.Scn})
+	wireCtl.Locked(func() { wireCtl.FollowTables = len(sc.Tables) })
 	base := filepath.Join(scratch, sc.Scn)
 	os.RemoveAll(base)
 	defer os.RemoveAll(base)
@@ -530,6 +533,7 @@ func main() {
 	out = bufio.NewWriterSize(os.Stdout, 1<<20)
 	defer out.Flush()
 	ctl := zv.NewCtl(ioutil.Discard)
+	wireCtl = ctl
 	zenodb.VerifHook = ctl.Hook // shortens the followers' start-up timers
 	ctl.Locked(func() { ctl.Gated = false })
 	dec := json.NewDecoder(bufio.NewReaderSize(os.Stdin, 1<<20))
